@@ -133,6 +133,21 @@ Theorem c08_struct_fields_evaluated_in_written_order : forall j id path rest fie
 Proof. exact OrderP.struct_fields_evaluated_in_written_order. Qed.
 Print Assumptions c08_struct_fields_evaluated_in_written_order.
 
+(* the same for a wildcard struct pattern `_ { .. }` and for the entries of an open map pattern *)
+Theorem c08_wildcard_struct_fields_evaluated_in_written_order : forall j id rest fields e en tr,
+  let s := expand j (PStruct id None rest fields) e in
+  MethodsP.set_free s = true -> exec s en = Some ([], tr) ->
+  OrderP.mlist tr = flat_map (fun fp => OrderP.msites (OrderP.wfield_stmt j e fp)) fields.
+Proof. exact OrderP.wildcard_struct_fields_evaluated_in_written_order. Qed.
+Print Assumptions c08_wildcard_struct_fields_evaluated_in_written_order.
+
+Theorem c08_open_map_entries_evaluated_in_written_order : forall j id sp entries e en tr,
+  let s := expand j (PMap id sp true entries) e in
+  MethodsP.set_free s = true -> exec s en = Some ([], tr) ->
+  OrderP.mlist tr = flat_map (fun kv => OrderP.msites (OrderP.entry_stmt j id e kv)) entries.
+Proof. exact OrderP.open_map_entries_evaluated_in_written_order. Qed.
+Print Assumptions c08_open_map_entries_evaluated_in_written_order.
+
 (* the value expression of a chain has the chain's methods in written order *)
 Theorem c08_chain_expression_has_the_written_methods_in_order : forall o base,
   OrderP.vmeths (apply_ops base o) = OrderP.vmeths base ++ OrderP.fop_meths o.
